@@ -2,7 +2,10 @@ package props
 
 import (
 	"fmt"
+	"github.com/ethereum/go-ethereum/common"
+	"github.com/shutter-network/rolling-shutter/rolling-shutter/shmsg"
 	"testing"
+	"verif/harness/apphist"
 
 	"pgregory.net/rapid"
 )
@@ -109,5 +112,81 @@ func TestC09_LongHistories(t *testing.T) {
 		c.EndBlock()
 		rec.Case(fmt.Sprintf("long:%d:%s", n, c.DescString()), len(c.Sent) > 1024, "long-history")
 		rec.LabelN("abci-calls", c.Calls)
+	})
+}
+
+// TestC09_SplitVotes aims at the decisions that depend on how a set of votes is tallied: a round of
+// configuration votes, then (if a key generation started) a round of result votes, each a generated
+// split over two or three candidates delivered in a generated order, on eight replicas. Every vote that
+// completes a threshold while other candidates hold votes too is an order-sensitive decision.
+func TestC09_SplitVotes(t *testing.T) {
+	rec := recorder("C09")
+	rec.AddRule("split votes: 3-5 genesis keypers, every threshold; round 1: each keyper votes for one of up to three candidate configurations (a majority candidate and near-twins of it) in a generated order; round 2, if an eon started: each keyper of the new set reports success or failure in a generated order, some twice; 8 replicas, same oracle after every call; non-trivial = some candidate reached the threshold while another candidate held votes")
+	runRapid(t, N(400, 60000), func(rt *rapid.T) {
+		n := rapid.IntRange(3, 5).Draw(rt, "n")
+		g := Genesis{Keypers: rapid.Permutation([]int{0, 1, 2, 3, 4}).Draw(rt, "perm")[:n], Threshold: rapid.IntRange(2, n).Draw(rt, "t"),
+			ForkEnabled: rapid.Bool().Draw(rt, "fork"), Validators: []int{10}}
+		c := NewChain(g, 8, func(sig, f string, a ...any) { fatalf(rt, sig, f, a...) })
+		c.CheckReplicas = true
+		addrs := func(idx []int) []common.Address {
+			var r []common.Address
+			for _, i := range idx {
+				r = append(r, uni.Addrs[i])
+			}
+			return r
+		}
+		// candidates: X and near-twins
+		kx := rapid.Permutation(g.Keypers).Draw(rt, "kx")[:rapid.IntRange(2, n).Draw(rt, "nkx")]
+		tx := rapid.IntRange(1, len(kx)).Draw(rt, "tx")
+		cands := []*shmsg.Message{
+			shmsg.NewBatchConfig(0, addrs(kx), uint64(tx), 1),
+			shmsg.NewBatchConfig(0, addrs(kx), uint64(tx%len(kx)+1), 1),
+			shmsg.NewBatchConfig(1, addrs(kx), uint64(tx), 1),
+		}
+		split := false
+		c.BeginBlock()
+		count := map[int]int{}
+		for i, k := range rapid.Permutation(g.Keypers).Draw(rt, "voteOrder") {
+			ci := rapid.SampledFrom([]int{0, 0, 0, 0, 1, 1, 2}).Draw(rt, fmt.Sprintf("vote%d", i))
+			count[ci]++
+			if count[ci] == g.Threshold && len(count) > 1 {
+				split = true
+			}
+			c.DeliverTx(uni.MakeTx(k, apphist.ChainID, c.nextNonce(), cands[ci]), fmt.Sprintf("s%d/cfg#%d", k, ci))
+		}
+		c.EndBlock()
+		if c.M.EonCounter > g.InitialEon {
+			// a key generation is running: its keypers report, split, in some order, some twice
+			eon := c.M.EonCounter
+			d := c.M.DKGs[eon]
+			c.BeginBlock()
+			var voters []int
+			for _, a := range d.Cfg.Keypers {
+				voters = append(voters, uni.Index(a))
+			}
+			order := rapid.Permutation(voters).Draw(rt, "resultOrder")
+			if rapid.Bool().Draw(rt, "someTwice") {
+				order = append(order, order[0])
+			}
+			yes, no := 0, 0
+			for i, k := range order {
+				ok := rapid.IntRange(0, 3).Draw(rt, fmt.Sprintf("result%d", i)) == 0
+				if ok {
+					yes++
+				} else {
+					no++
+				}
+				if (yes == int(d.Cfg.Threshold) || no == int(d.Cfg.Threshold)) && yes > 0 && no > 0 {
+					split = true
+				}
+				c.DeliverTx(uni.MakeTx(k, apphist.ChainID, c.nextNonce(), shmsg.NewDKGResult(eon, ok)), fmt.Sprintf("s%d/result(%d,%v)", k, eon, ok))
+			}
+			c.EndBlock()
+		}
+		labels := []string{"split-votes"}
+		if c.M.Restarts > 0 {
+			labels = append(labels, "restart")
+		}
+		rec.Case("splitvotes:"+c.DescString(), split, labels...)
 	})
 }
